@@ -43,7 +43,9 @@ DFF_CELLS = {
 class VOpts:
     """rendering options; every field has a default, a deviation is any non-default value"""
     DEFAULTS = dict(
-        in_decl='scalar',        # scalar | bus_desc | bus_asc | bus_mixed
+        in_decl='scalar',        # scalar | bus_desc | bus_asc | bus_mixed | bus_off (descending, lowest index 2)
+        wire_decl='scalar',      # scalar | bus (internal wires are bits of one bus)
+        out_ref='bit',           # bit | whole (a 1-bit output bus is referred to by its bare name)
         out_decl='scalar',       # scalar | bus_desc | bus_asc
         port_order=0,            # index into permutations of the header port list
         stmt_order='decl_first', # decl_first | inst_first | interleaved | inst_reversed
@@ -60,10 +62,10 @@ class VOpts:
         concat_assign=False,     # drive output bus through one concatenation assign
     )
     CHOICES = dict(
-        in_decl=['bus_desc', 'bus_asc', 'bus_mixed'], out_decl=['bus_desc', 'bus_asc'], port_order=[1, 2, 3],
+        in_decl=['bus_desc', 'bus_asc', 'bus_mixed', 'bus_off'], wire_decl=['bus'], out_ref=['whole'], out_decl=['bus_desc', 'bus_asc'], port_order=[1, 2, 3],
         stmt_order=['inst_first', 'interleaved', 'inst_reversed'], pin_order=['rev', 'out_first'], out_style=['assign'],
-        escape=[True], noise=['line_comment', 'block_comment', 'attribute', 'tabs_newlines', 'crlf'], redeclare=[True],
-        const_style=['bus'], const_spelling=['h', 'd', 'B', 'H', 'D'], open_pin=['empty'], assign_order=['rev'], alias_chain=[True, 'rev'], concat_assign=[True],
+        escape=[True], noise=['line_comment', 'block_comment', 'star_comment', 'attribute', 'star_attribute', 'tabs_newlines', 'crlf'], redeclare=[True],
+        const_style=['bus', 'bus4h', 'bus3d'], const_spelling=['h', 'd', 'B', 'H', 'D'], open_pin=['empty'], assign_order=['rev'], alias_chain=[True, 'rev'], concat_assign=[True],
     )
 
     def __init__(self, **kw):
@@ -95,8 +97,10 @@ def verilog(nl, cmap, dffcell, opts, const_gate_inputs=None):
     # ---- names
     def in_name(k):
         if opts.in_decl == 'scalar' or (opts.in_decl == 'bus_mixed' and k == nI - 1 and nI > 1): return f'i{k}'
-        return f'i[{k}]'
+        return f'i[{k + 2}]' if opts.in_decl == 'bus_off' else f'i[{k}]'
+    whole = opts.out_ref == 'whole' and nO == 1 and opts.out_decl != 'scalar'
     def out_name(j):
+        if whole: return 'o'
         return f'o{j}' if opts.out_decl == 'scalar' else f'o[{j}]'
     readers = nl.readers()
     sig_name = {}
@@ -117,7 +121,7 @@ def verilog(nl, cmap, dffcell, opts, const_gate_inputs=None):
     nIbus = nI - 1 if (opts.in_decl == 'bus_mixed' and nI > 1) else nI
     if opts.in_decl == 'scalar': decl += [f'input i{k};' for k in range(nI)]
     else:
-        rng = f'[{nIbus - 1}:0]' if opts.in_decl in ('bus_desc', 'bus_mixed') else f'[0:{nIbus - 1}]'
+        rng = f'[{nIbus - 1}:0]' if opts.in_decl in ('bus_desc', 'bus_mixed') else (f'[{nIbus + 1}:2]' if opts.in_decl == 'bus_off' else f'[0:{nIbus - 1}]')
         if nIbus > 0: decl.append(f'input {rng} i;')
         if opts.in_decl == 'bus_mixed' and nI > 1: decl.append(f'input i{nI - 1};')
     if nl.states: decl.append('input clk;')
@@ -126,8 +130,12 @@ def verilog(nl, cmap, dffcell, opts, const_gate_inputs=None):
     if opts.redeclare:
         if opts.out_decl == 'scalar': decl += [f'wire o{j};' for j in range(nO)]
         elif nO > 0: decl.append(f'wire [{nO - 1}:0] o;' if opts.out_decl == 'bus_desc' else f'wire [0:{nO - 1}] o;')
-    wires = [sig_name[s] for s in nl.signals() if s[0] != 'i' and s not in direct and s in readers]
-    for w in wires: decl.append(f'wire {w};')
+    wsigs = [s for s in nl.signals() if s[0] != 'i' and s not in direct and s in readers]
+    if opts.wire_decl == 'bus' and wsigs:
+        for j, s in enumerate(wsigs): sig_name[s] = f'ww[{j}]'
+        decl.append(f'wire [{len(wsigs) - 1}:0] ww;')
+    else:
+        for s in wsigs: decl.append(f'wire {sig_name[s]};')
     # ---- expected io order
     header = []
     if opts.in_decl == 'scalar': header += [f'i{k}' for k in range(nI)]
@@ -143,18 +151,26 @@ def verilog(nl, cmap, dffcell, opts, const_gate_inputs=None):
     expected_ports = []
     for h in header:
         if h == 'i' and opts.in_decl != 'scalar':
-            bits = range(nIbus - 1, -1, -1) if opts.in_decl in ('bus_desc', 'bus_mixed') else range(nIbus)
+            bits = range(nIbus - 1, -1, -1) if opts.in_decl in ('bus_desc', 'bus_mixed') else (range(nIbus + 1, 1, -1) if opts.in_decl == 'bus_off' else range(nIbus))
             expected_ports += [f'i[{b}]' for b in bits]
         elif h == 'o' and opts.out_decl != 'scalar':
             bits = range(nO - 1, -1, -1) if opts.out_decl == 'bus_desc' else range(nO)
             expected_ports += [f'o[{b}]' for b in bits]
         else: expected_ports.append(h)
     # ---- constants via bus
-    const_bus = opts.const_style == 'bus'
-    if const_bus:
+    sp = opts.const_spelling
+    if opts.const_style == 'bus':
         decl.append('wire [1:0] kk;')
-        assigns.append({'b': "assign kk = 2'b10;", 'B': "assign kk = 2'B10;", 'h': "assign kk = 2'h2;", 'H': "assign kk = 2'H2;", 'd': "assign kk = 2'd2;", 'D': "assign kk = 2'D2;"}[opts.const_spelling])
+        assigns.append({'b': "assign kk = 2'b10;", 'B': "assign kk = 2'B10;", 'h': "assign kk = 2'h2;", 'H': "assign kk = 2'H2;", 'd': "assign kk = 2'd2;", 'D': "assign kk = 2'D2;"}[sp])
         sig_name['c0'], sig_name['c1'] = 'kk[0]', 'kk[1]'
+    elif opts.const_style == 'bus4h':
+        decl.append('wire [3:0] kk;')
+        assigns.append(f"assign kk = 4'{'H' if sp.isupper() else 'h'}{'A' if sp.isupper() else 'a'};")
+        sig_name['c0'], sig_name['c1'] = 'kk[2]', 'kk[3]'
+    elif opts.const_style == 'bus3d':
+        decl.append('wire [2:0] kk;')
+        assigns.append(f"assign kk = 3'{'D' if sp.isupper() else 'd'}5;")
+        sig_name['c0'], sig_name['c1'] = 'kk[1]', 'kk[0]'
     # ---- instances
     def pins_text(pairs):
         if opts.pin_order == 'rev': pairs = pairs[::-1]
@@ -208,7 +224,7 @@ def verilog(nl, cmap, dffcell, opts, const_gate_inputs=None):
             body += [y for y in x if y is not None]
     text = f'module top ({", ".join(header)});\n' + '\n'.join('  ' + b for b in body) + '\nendmodule\n'
     text = add_noise(text, opts.noise)
-    return text, expected_ports, inst_names
+    return text, expected_ports, inst_names, [in_name(k) for k in range(nI)], [('o[0]' if whole else out_name(j)) for j in range(nO)]
 
 
 def add_noise(text, noise):
@@ -217,6 +233,10 @@ def add_noise(text, noise):
         return '// leading comment\n' + re.sub(r';\n', '; // trailing comment ; with semicolon\n', text)
     if noise == 'block_comment':
         return '/* header */\n' + text.replace('(', '( /* c */ ').replace(';\n', '; /* multi\n line * comment */\n')
+    if noise == 'star_comment':     # comments whose delimiters touch further stars
+        return '/** header **/\n/***/\n' + text.replace(';\n', '; /** doc **/\n', 2).replace(';\n', '; /*****/ /* a * b ** c */\n')
+    if noise == 'star_attribute':
+        return '(* top = 1 **)\n' + text.replace('\n  ', '\n  (** keep *)\n  ', 2).replace('\n  ', '\n  (* a * b **)\n  ')
     if noise == 'attribute':
         return '(* top = 1 *)\n' + text.replace('\n  ', '\n  (* src = "x.v:1" *)\n  ')
     if noise == 'tabs_newlines':
